@@ -220,6 +220,22 @@ pub fn c09(opts: &Opts, out: &mut Out) {
         }
         classes.insert((100 + k, 0));
     }
+    // batches beyond the internal chunk size(s): every position checked
+    let big_sizes: Vec<usize> = if opts.thorough { vec![257, 513, 600, 769, 1025] } else { vec![257, 513, 600] };
+    for k in big_sizes {
+        let order: Vec<usize> = (0..k).map(|i| if i % 7 == 3 { 1 } else { [0usize, 3, 5, 2][(i / 3 + i) % 4] }).collect();
+        let stmts: Vec<Stmt> = order.iter().map(|i| pool[*i].1.clone()).collect();
+        let proofs: Vec<Proof> = order.iter().map(|i| pool[*i].2.clone()).collect();
+        for a in [VerifyAction::RecoverAndVerify, VerifyAction::RecoverOnly] {
+            let mut ts: Vec<_> = order.iter().map(|i| pool[*i].0.transcript()).collect();
+            let r = Proof::verify_batch(&mut ts, &stmts, &proofs, a);
+            let got = masks_of(&r);
+            let expect: Vec<Option<Vec<Scalar>>> = order.iter().map(|i| if pool[*i].0.seed.is_some() { Some(pool[*i].0.blindings[0].clone()) } else { None }).collect();
+            let first_bad = got.as_ref().and_then(|g| (0..k).find(|i| g.get(*i) != expect.get(*i)));
+            out.oracle("C09:batch-positions", got.as_ref() == Some(&expect), &format!("batch of {} action={:?}", k, a), &format!("i-th result is not the i-th member's mask (first at position {:?})", first_bad));
+        }
+        classes.insert((1000 + k, 0));
+    }
     out.stat("distinct_classes", classes.len());
     out.case("single proofs: bits {1..64} x degree 1..6 with pairwise distinct blinding components, both recovering modes, free module + Ristretto; batches of 1..9 mixing seeded/unseeded/aggregated members in random order x 3 modes".into());
 }
